@@ -229,8 +229,20 @@ def body(E, n, m, num_pts, npt_so_far, preset, with_h=False, xr=False, nsample_m
         'finished_growing': fg, 'do_logging': False, 'print_progress': False, 'diagnostic_info': DI,
         'succ_steps_not_improvement': [E.bool('fake%d' % i) for i in range(nfake)],
         'restart_auto_detect_full': rad_full, 'restart_auto_detect_delta': rad_delta, 'restart_auto_detect_chgJ': rad_chgJ,
-        'exit_info': None, 'nf': C.nf,
+        'exit_info': None,
     }
+    # the other parameters / pre-loop locals of solve_main.  nf, nx, nf_so_far, nx_so_far are the STALE counters of the run start
+    # (the live ones are control.nf / control.nx): arbitrary values not above the live counters
+    stale = {}
+    for nm, live in (('nf', C.nf), ('nx', C.nx), ('nf_so_far', C.nf), ('nx_so_far', C.nx)):
+        stale[nm] = E.int(nm + '_stale', 0, None)
+        E.assume(stale[nm] <= live)
+    E.assume(E.all([stale['nf_so_far'] <= stale['nf'], stale['nx_so_far'] <= stale['nx'], 1 <= stale['nx'], 1 <= stale['nf']]))
+    env.update(stale)
+    env.update({'maxfun': C.maxfun, 'npt': M.num_pts, 'xl': getattr(M, 'xl', None), 'xu': getattr(M, 'xu', None), 'projections': M.projections,
+                'argsf': (), 'argsh': M.argsh, 'scaling_changes': C.scaling_changes, 'prox_uh': C.prox_uh, 'argsprox': C.argsprox,
+                'x0': E.vec('x0_runstart', n), 'default_growing_method_set_by_user': True, 'r0_avg_old': None, 'r0_nsamples_old': None,
+                'x0_eval_num_old': None})
     pre = {'nf': C.nf, 'nx': C.nx, 'rho': C.rho, 'delta': C.delta, 'nruns': nruns, 'rhoend': C.rhoend, 'rhobeg': C.rhobeg,
            'final': spec_final_obj(E, M), 'rows': 0, 'maxfun': C.maxfun}
     old_records = [dict(g) for g in ghost]
@@ -253,6 +265,10 @@ def body(E, n, m, num_pts, npt_so_far, preset, with_h=False, xr=False, nsample_m
         raise
     except Exception as e:        # noqa
         outcome, exc = 'raise', e
+        if isinstance(e, NameError) and getattr(e, 'name', None) and e.name not in env and \
+                e.name in loader.function_locals(loader.find_def('solver', 'solve_main')):
+            # the sliced iteration reads a local of solve_main that this harness does not provide: no verdict (harness error), not a pass
+            raise RuntimeError("main-loop slice reads solve_main's local %r, which the STEP environment does not model" % e.name)
     E.reach('outcome:' + outcome)
     if proj:
         # C09: every evaluated point is an output of the alternating projection over the model's projector list (box last)
@@ -328,9 +344,15 @@ def check_step(E, outcome, exc, env, pre, C, M, params, log, rec, old_records, n
         E.prove(E.any([rec_equal(E, xk, M.fval_v[k, :], M.nsamples[k], M.eval_num[k], R, n, m) for R in allowed]),
                 'C03:step:every-slot-holds-one-whole-evaluated-record')
         E.prove(E.same(M.objval[k], objective(E, M, M.fval_v[k, :], M.xbase + M.points[k, :])), 'C03:step:slot-objective-is-F')
+        # (C11: the numbers that a later fit snapshots into jacmin_eval_nums are the slots' numbers)
+        E.prove(E.any([rec_equal(E, xk, M.fval_v[k, :], M.nsamples[k], M.eval_num[k], R, n, m) for R in allowed]),
+                'C11:step:every-slot-carries-the-evaluation-number-of-its-point')
     if M.objsave is not None:
         E.prove(E.any([rec_equal(E, M.xsave, M.rsave, M.nsamples_save, M.eval_num_save, R, n, m) for R in allowed]),
                 'C03:step:saved-slot-holds-one-whole-evaluated-record')
+        # (C11: a saved point becomes the first interpolation point of the next run after a hard restart, with this number)
+        E.prove(E.any([rec_equal(E, M.xsave, M.rsave, M.nsamples_save, M.eval_num_save, R, n, m) for R in allowed]),
+                'C11:step:saved-point-carries-its-own-evaluation-number')
     post_obj = spec_final_obj(E, M)
     deterministic = (nsample_mode == 'one')
     # ---------------- C04: best point never lost (at continue and at exit alike)
@@ -394,6 +416,11 @@ def check_step(E, outcome, exc, env, pre, C, M, params, log, rec, old_records, n
         from_model = (jnums is M.model_jac_eval_nums) or _same_ints(E, jnums, M.model_jac_eval_nums)
         from_saved = M.jacsave_eval_nums is not None and _same_ints(E, jnums, M.jacsave_eval_nums)
         E.prove(E.any([from_model, from_saved]), 'C11:exit:jacobian-eval-numbers-are-a-fit-snapshot')
+        # ... and they are the numbers of the fit that produced THIS Jacobian: both from the live model or both from the saved record
+        samej = lambda A_, B_: B_ is not None and A_.shape == B_.shape and E.all([E.same(p_, q_) for p_, q_ in zip(E.flat(A_), E.flat(B_))])
+        pair_model = E.all([samej(jac, M.model_jac), from_model])
+        pair_saved = E.all([samej(jac, M.jacsave), from_saved])
+        E.prove(E.any([pair_model, pair_saved]), 'C11:exit:jacobian-and-its-eval-numbers-come-from-the-same-fit')
     # C10: messages tell the truth
     msg = exit_info.msg
     flag = exit_info.flag
